@@ -214,6 +214,30 @@ def own_td_execs(rng, scale):
     return out
 
 
+def model_compose_execs(limit, seed):
+    """fallback compositions driven along the behaviours of the Compose design model (MCComposeGen): the model
+    predicts which leaf serves every request and in which shape it is asked (header key cexpect); sizes in units of
+    8 bytes, leaf capacities as in the model"""
+    from . import models
+    out = []
+    for cfgname, comp in (("MCCompose_gen_fb.cfg", "fb"), ("MCCompose_gen_fbn.cfg", "fb_n"), ("MCCompose_gen_nest.cfg", "fb_nest"),
+                          ("MCCompose_gen_nest2.cfg", "fb_nest2")):
+        beh, _ = models.behaviours("MCComposeGen", cfgname, limit, seed)
+        for h in beh:
+            cmds = ["fill 1 16", "fill 2 24", "fill 3 800"]
+            exp = []
+            for c in h:
+                if c["op"] == "an":
+                    cmds.append("an %d 8" % (8 * c["sz"]))
+                elif c["op"] == "aa":
+                    cmds.append("aa %d %d 8" % (c["n"], 8 * c["sz"]))
+                else:
+                    cmds.append("d %d" % c["n"])
+                exp.append("%d%s%dx%d" % (c["leaf"], c["kind"], c["qn"], 8 * c["qsz"]))
+            out.append(({"comp": comp, "tag": "tlc-compose", "cexpect": ".".join(exp)}, cmds))
+    return out
+
+
 def jobs_c08(prop, tier, seed):
     rng = random.Random(seed * 7919 + 8)
     s = 1 if tier == "quick" else 60
@@ -221,14 +245,18 @@ def jobs_c08(prop, tier, seed):
     for cfg in ("rel", "base", "dbg"):
         J.append(Job(cfg, "seq", "SeqTrace", foreign_execs(rng, s), "foreign"))
         J.append(Job(cfg, "seq", "SeqTrace", own_td_execs(rng, s), "owntd"))
+    ex = model_compose_execs(60 if tier == "quick" else 1500, seed)
+    J += [Job(cfg, "compose", "ForwardTrace", ex, "tlc-compose") for cfg in ("base", "dbg")]
     return J
 
 
 def jobs_c09(prop, tier, seed):
     rng = random.Random(seed * 7919 + 9)
     s = 1 if tier == "quick" else 60
+    ex = model_compose_execs(60 if tier == "quick" else 1500, seed)
     return (compose_jobs(COMPS_ALL, ["base", "dbg"], 3 * s, 45, rng, "adapters")
-            + compose_jobs(COMPS_DEEP, ["base", "dbg"], 4 * s, 60, rng, "deep") + known_jobs(["base"]))
+            + compose_jobs(COMPS_DEEP, ["base", "dbg"], 4 * s, 60, rng, "deep") + known_jobs(["base"])
+            + [Job(cfg, "compose", "ForwardTrace", ex, "tlc-compose") for cfg in ("base", "dbg")])
 
 
 def smart_cmds(rng, n):
